@@ -46,6 +46,7 @@ func checkC19(c *Ctx) {
 
 	c.Rule("C19.R1.yaml-from-json", "no YAML marshaller is applied to a spec-typed value; generic values for YAML come from JSON bytes through an integer-exact decoder", 3)
 	c.Rule("C19.R2.verbatim", "bytes returned by a JSON/YAML marshaller are only written, printed, returned or decoded as the intermediate form — never transformed", 4)
+	c.Rule("C19.R2.document-settled", "in every function that renders a document, nothing is stored into a value of the spec package after the first marshalling call: both formats render the same document", 2)
 	nYAML := 0
 	for _, pk := range pkgs {
 		info := pk.TypesInfo
@@ -90,6 +91,7 @@ func checkC19(c *Ctx) {
 			})
 			if rendersSpec(info, fd) || (pk.Name == "initcmd" && load.FuncName(fd) == "Spec.Execute") {
 				checkVerbatim(c, pk, fd)
+				checkDocumentSettled(c, "C19.R2.document-settled", pk, fd)
 			}
 		}
 	}
@@ -533,4 +535,59 @@ func guardsExclude(info *types.Info, a, b []goan.Lit) bool {
 		}
 	}
 	return false
+}
+
+// checkDocumentSettled: a function that renders a document in either format marshals the same
+// document in both: once the first marshalling call is written, nothing is stored into a value
+// of the spec package any more. A store between the two renderings (after the `return` of the
+// JSON branch, before yaml.Marshal) gives one format a document the other never saw.
+func checkDocumentSettled(c *Ctx, rule string, pk *packages.Package, fd *ast.FuncDecl) {
+	info := pk.TypesInfo
+	first := token.NoPos
+	ast.Inspect(fd.Body, func(n ast.Node) bool {
+		call, ok := n.(*ast.CallExpr)
+		if !ok {
+			return true
+		}
+		fn := goan.Callee(info, call)
+		if fn == nil {
+			return true
+		}
+		name := goan.CalleeName(fn)
+		if isMarshaller(name) || name == "encoding/json.Encoder.Encode" || name == "(*encoding/json.Encoder).Encode" || (fn.Name() == "Encode" && fn.Pkg() != nil && fn.Pkg().Path() == "encoding/json") || fn.Name() == "marshalToYAMLFormat" || fn.Name() == "marshalToJSONFormat" {
+			if first == token.NoPos || call.Pos() < first {
+				first = call.Pos()
+			}
+		}
+		return true
+	})
+	if first == token.NoPos {
+		return
+	}
+	late := ""
+	ast.Inspect(fd.Body, func(n ast.Node) bool {
+		as, ok := n.(*ast.AssignStmt)
+		if !ok || as.Pos() < first {
+			return true
+		}
+		for _, l := range as.Lhs {
+			se, ok := ast.Unparen(l).(*ast.SelectorExpr)
+			if !ok {
+				continue
+			}
+			t := info.TypeOf(se.X)
+			if t == nil {
+				continue
+			}
+			if p, ok := t.(*types.Pointer); ok {
+				t = p.Elem()
+			}
+			if nt, ok := t.(*types.Named); ok && nt.Obj().Pkg() != nil && nt.Obj().Pkg().Path() == "github.com/go-openapi/spec" {
+				late = goan.ExprString(l) + " at " + c.posOf(pk, as.Pos())
+			}
+		}
+		return true
+	})
+	c.Check(late == "", rule, fmt.Sprintf("%s.%s › the document is complete before it is first marshalled", pk.Name, load.FuncName(fd)), c.posOf(pk, first), "no store into the document after the first marshalling call",
+		"a field of the document is stored ("+late+") after the first marshalling call of the function: the rendering written by the earlier branch (JSON) and the one written after the store (YAML) are renderings of two different documents")
 }
